@@ -50,6 +50,7 @@ func getSwapOutReceiverStates() States {
 				Event_ActionFailed:    State_SendCancel,
 				Event_ActionSucceeded: State_SwapOutReceiver_AwaitFeeInvoicePayment,
 			},
+			FailOnrecover: true,
 		},
 		State_SwapOutReceiver_AwaitFeeInvoicePayment: {
 			Action: &AwaitFeeInvoicePayment{},
@@ -57,6 +58,7 @@ func getSwapOutReceiverStates() States {
 				Event_OnFeeInvoicePaid: State_SwapOutReceiver_BroadcastOpeningTx,
 				Event_OnCancelReceived: State_SwapCanceled,
 				Event_ActionFailed:     State_SendCancel,
+				Event_OnTimeout:        State_SendCancel,
 			},
 			FailOnrecover: true,
 		},
